@@ -15,7 +15,8 @@ import (
 //
 // (grammar-generated samples per syntax plus a few hand-written ones covering the BOM,
 // heredocs, directives, the fork's \xHH escape and all comment styles, and the white
-// space zoo: wszoo-hand-*, wszoo-gen-*).
+// space zoo: wszoo-hand-*, wszoo-gen-*, and access chains over collection sources:
+// splat-hand-*, splat-gen-*).
 func TestC17WriteCorpus(t *testing.T) {
 	dir := os.Getenv("C17_WRITE_CORPUS")
 	if dir == "" {
@@ -75,6 +76,22 @@ func TestC17WriteCorpus(t *testing.T) {
 		// between arguments), plus generated samples of the gen:wszoo class
 		for i, s := range zooHand[kind] {
 			os.WriteFile(filepath.Join(d, fmt.Sprintf("wszoo-hand-%02d", i)), []byte(s), 0o644)
+		}
+		// access chains over collection-valued sources (splat_test.go): nested splats over
+		// conditionals that unify to lists, rows with empty and non-empty inner collections, for
+		// expressions, typed variables of collCtx; hand-written plus generated samples of gen:splat
+		for i, s := range splatHand[kind] {
+			os.WriteFile(filepath.Join(d, fmt.Sprintf("splat-hand-%02d", i)), []byte(s), 0o644)
+		}
+		sg := rapid.Custom(func(rt *rapid.T) []byte { b, _ := genSplat(rt, k); return b })
+		ns := 0
+		for i := 0; ns < 30 && i < 2000; i++ {
+			b := sg.Example(i)
+			if len(b) < 6 || len(b) > 300 {
+				continue
+			}
+			os.WriteFile(filepath.Join(d, fmt.Sprintf("splat-gen-%02d", ns)), b, 0o644)
+			ns++
 		}
 		type zs struct {
 			b []byte
